@@ -482,6 +482,8 @@ class sptensor:
         array([6., 7.])
         """
         dims, _ = tt_dimscheck(self.ndims, dims=dims)
+        if np.any(dims >= self.ndims):
+            assert False, "dims must contain values in [0,self.dims)"
         remdims = np.setdiff1d(np.arange(0, self.ndims), dims)
 
         # Check for the case where we accumulate over *all* dimensions
